@@ -493,13 +493,22 @@ def rule_must_recency(ctx):
                 if p.diverged:
                     continue
                 hit_admitted = [v for t, v in p.conds if isinstance(t, tuple) and t[0] == 'call' and str(t[1]).endswith('::load') and 'is_admitted' in fmt(t)]
-                if not hit_admitted:
+                # Hit ops received on this path: Ok(op) with discriminant of variant Hit
+                hit_idx = [v_['name'] for v_ in prog.adts['common::concurrent::ReadOp']['variants']].index('Hit')
+                nhits = sum(1 for t, v in p.conds if isinstance(t, tuple) and t[0] == 'discr' and isinstance(t[1], tuple) and t[1][0] == 'payload' and t[1][2] == 'Ok'
+                            and has_call(t[1], ('Receiver::try_recv',)) and v == hit_idx)
+                if not hit_admitted and not nhits:
                     continue
                 nmoves = sum(1 for e in p.events if moves(e, 'ao'))
                 want = sum(1 for v in hit_admitted if v is True)
                 n += 1
-                r.instance(function=c, hits_of_admitted_entries=want, moves_to_back=nmoves, ok=nmoves == want)
-                if nmoves != want:
+                r.instance(function=c, hits_received=nhits, admitted_tests=len(hit_admitted), hits_of_admitted_entries=want, moves_to_back=nmoves,
+                           ok=nmoves == want and len(hit_admitted) == nhits)
+                if len(hit_admitted) != nhits:
+                    r.violate(c, 'hit-not-applied', 'is_admitted', 'the read-op consumer receives %d Hit op(s) on a path but tests/refreshes recency for %d (conditions: %s): a successful get '
+                              'does not count as a use' % (nhits, len(hit_admitted), [fmt(t)[:40] + '==' + str(v) for t, v in p.conds][:6]), where=ctx.where(c),
+                              expected='every Hit: if entry.is_admitted() { move_to_back_ao }')
+                elif nmoves != want:
                     r.violate(c, 'hit-without-recency', 'move_to_back', 'the read-op consumer applies %d hit(s) of admitted entries but refreshes recency %d time(s) on a path (conditions: %s)' % (
                         want, nmoves, [fmt(t)[:40] + '==' + str(v) for t, v in p.conds][:6]), where=ctx.where(c),
                         expected='Hit of an admitted entry => move_to_back_ao, unconditionally')
